@@ -11,7 +11,7 @@ use bitcoin::hashes::Hash;
 use ic_btc_canister::with_state;
 use serde::Serialize;
 use serde_json::{json, Value};
-use std::collections::HashSet;
+use std::collections::{HashMap, HashSet};
 
 // ----------------------------------------------------------------- item alphabet
 
@@ -100,7 +100,10 @@ pub const H_BAD_POW: u8 = 6;
 pub const H_79: u8 = 7;
 pub const H_81: u8 = 8;
 pub const H_EMPTY: u8 = 9;
-pub const ALL_HDRS: [u8; 9] = [1, 2, 3, 4, 5, 6, 7, 8, 9];
+/// child of the highest announced header the canister still retains (connected to the tree or
+/// left over from a discarded fork)
+pub const H_ON_RETAINED: u8 = 10;
+pub const ALL_HDRS: [u8; 10] = [1, 2, 3, 4, 5, 6, 7, 8, 9, 10];
 
 #[derive(Clone, Debug, Serialize, PartialEq, Eq)]
 pub enum XEv {
@@ -372,6 +375,17 @@ fn build_hdr(w: &World, k: u8, pos: usize, tip_after: &bitcoin::block::Header, f
             Some((b, Some(h)))
         }
         H_EMPTY => Some((vec![], None)),
+        H_ON_RETAINED => {
+            let retained: HashSet<H32> = dump_unstable().ok()?.hdr_by_hash.keys().copied().collect();
+            let tree: HashSet<H32> = w.tree_hashes().into_iter().collect();
+            let p = w
+                .announced
+                .iter()
+                .filter(|a| retained.contains(&a.hash) && !tree.contains(&a.hash))
+                .max_by_key(|a| (a.height, a.hash))?;
+            let h = mk(&p.header, salt + 80);
+            Some((factory::header_bytes(&h), Some(h)))
+        }
         _ => None,
     }
 }
@@ -541,7 +555,10 @@ impl C10Model {
             }
         }
         let (de0, ie0) = counters();
-        let hdrs_before: HashSet<H32> = dump_unstable().map(|d| d.hdr_by_hash.keys().copied().collect()).unwrap_or_default();
+        let hdr_prev_before: HashMap<H32, H32> = dump_unstable()
+            .map(|d| d.hdr_by_hash.iter().filter_map(|(k, v)| <H32>::try_from(v.1.as_slice()).ok().map(|p| (*k, p))).collect())
+            .unwrap_or_default();
+        let hdrs_before: HashSet<H32> = hdr_prev_before.keys().copied().collect();
         let r = feed(
             w,
             built.iter().map(|b| b.bytes.clone()).collect(),
@@ -657,21 +674,40 @@ impl C10Model {
             let mut must: Vec<H32> = vec![];
             let mut may: HashSet<H32> = HashSet::new();
             let mut blocked = false;
+            // after a header whose fate the statement does not decide, later ones are "may"
+            let mut undecided_tail = false;
             let mut known: HashSet<H32> = post_tree.clone();
             known.extend(hdrs_before.iter().copied());
+            // parent links of pending headers (retained before this reply + accepted in it)
+            let mut prev_of: HashMap<H32, H32> = hdr_prev_before.clone();
+            let connected = |start: &H32, prev_of: &HashMap<H32, H32>| -> bool {
+                let mut cur = *start;
+                for _ in 0..64 {
+                    if post_tree.contains(&cur) {
+                        return true;
+                    }
+                    match prev_of.get(&cur) {
+                        Some(p) => cur = *p,
+                        None => return false,
+                    }
+                }
+                false
+            };
             for (k, _bytes, h) in &hdrs {
                 let Some(h) = h else {
                     blocked = true; // undecodable blob stops the processing
                     continue;
                 };
                 let hh = h.block_hash().to_byte_array();
-                let parent_known = known.contains(&h.prev_blockhash.to_byte_array());
+                let parent = h.prev_blockhash.to_byte_array();
+                let parent_known = known.contains(&parent);
                 let valid = !matches!(*k, H_BAD_POW) && parent_known && !post_tree.contains(&hh);
                 if matches!(*k, H_81) {
                     // trailing byte: lenient decoding, undecided
                     if valid {
                         may.insert(hh);
                         known.insert(hh);
+                        prev_of.insert(hh, parent);
                     }
                     continue;
                 }
@@ -681,10 +717,26 @@ impl C10Model {
                 if matches!(*k, H_DUP) && known.contains(&hh) {
                     continue; // already known: skipped, processing continues
                 }
-                if valid {
-                    must.push(hh);
+                if valid && !connected(&parent, &prev_of) {
+                    // the parent is a retained header of a discarded fork: whether such a
+                    // header is still extended is not decided by the statement (it must not
+                    // trap, which the heartbeat-trap oracle above judges)
+                    out.count("headers_on_a_retained_header_of_a_discarded_fork");
                     may.insert(hh);
                     known.insert(hh);
+                    prev_of.insert(hh, parent);
+                    undecided_tail = true;
+                    continue;
+                }
+                if valid {
+                    if !undecided_tail {
+                        must.push(hh);
+                    }
+                    may.insert(hh);
+                    known.insert(hh);
+                    prev_of.insert(hh, parent);
+                } else if undecided_tail {
+                    continue;
                 } else {
                     blocked = true;
                 }
@@ -936,6 +988,30 @@ pub fn run(tier: &str) -> i32 {
                    "max_announced_headers": mh}),
         );
     }
+    // announced headers left over from a discarded fork (they are pruned by height only): a
+    // later reply announces a header on top of one of them
+    for (theta, n) in if quick { vec![(1u32, 3usize)] } else { vec![(1, 4), (2, 4)] } {
+        let mut base = Alphabet::tree(n, &[1]);
+        base.hdr_lens = vec![2, 3];
+        base.max_hdr_events = 1;
+        let m = C10Model {
+            cfg: WorldCfg::regtest(theta),
+            base,
+            item_kinds: vec![K_CHILD_OF_TIP, K_CHILD_OF_FORK],
+            max_items: 1,
+            hdr_kinds: vec![H_VALID, H_CHAINED, H_ON_RETAINED, H_UNCONNECTED],
+            max_hdrs: 2,
+            max_resps: 1,
+        };
+        let e = explore(&m, &Limits::new(2, if quick { 300 } else { 6000 }));
+        rep.absorb(
+            &format!("TREE+Hdr n={} theta={} x replies announcing headers on retained headers (live or of a discarded fork)", n, theta),
+            e,
+            json!({"threshold": theta, "base_blocks": n, "announced_chain_lengths_in_base_states": [2, 3],
+                   "header_kinds": ["valid on tip", "chained", "child of the highest retained announced header", "unconnected"]}),
+        );
+    }
+    rep.floor("headers_on_a_retained_header_of_a_discarded_fork", 5);
     // channel equivalence: the direct channel used by the other properties and the
     // heartbeat channel give the same state
     channel_equivalence(&mut rep, if quick { 3 } else { 4 });
